@@ -4,7 +4,7 @@
 set -u
 id=$1; tier=${2:-quick}
 d=/verif/seeded/$id
-prop=$(python3 -c "import json;print(json.load(open('$d/meta.partial.json'))['property'])" 2>/dev/null || python3 -c "import json;print(json.load(open('$d/meta.json'))['property'])")
+prop=${PROP_OVERRIDE:-}; [ -n "$prop" ] || prop=$(python3 -c "import json;print(json.load(open('$d/meta.partial.json'))['property'])" 2>/dev/null || python3 -c "import json;print(json.load(open('$d/meta.json'))['property'])")
 test -z "$(git -C /repo status --porcelain --untracked-files=no)" || { echo "/repo not clean"; exit 2; }
 git -C /repo apply $d/patch.diff || exit 2
 cd /verif
